@@ -25,7 +25,7 @@ def _uniqify_labels(arr, labels: list[str]) -> np.ndarray:
 
     palette = np.arange(len(labels), dtype=int)
 
-    index = np.digitize(arr, palette, right=True)
+    index = np.digitize(arr, palette)
     return mapping[index]
 
 
